@@ -5,6 +5,27 @@ for a variable are the rows `save_model`'s metadata function holds for it.
 -/
 namespace PymocaVerif.CacheMeta
 
+/-- element-wise relation of two lists of equal length -/
+inductive All2 {α β : Type} (R : α → β → Prop) : List α → List β → Prop
+  | nil : All2 R [] []
+  | cons {a b as bs} : R a b → All2 R as bs → All2 R (a :: as) (b :: bs)
+
+theorem All2.length_eq {α β : Type} {R : α → β → Prop} {as : List α} {bs : List β} (h : All2 R as bs) :
+    as.length = bs.length := by
+  induction h with
+  | nil => rfl
+  | cons _ _ ih => simp [ih]
+
+theorem All2.get {α β : Type} {R : α → β → Prop} {as : List α} {bs : List β} (h : All2 R as bs) :
+    ∀ (i : Nat) (h1 : i < as.length) (h2 : i < bs.length), R as[i] bs[i] := by
+  induction h with
+  | nil => intro i h1; simp at h1
+  | cons hab _ ih =>
+    intro i h1 h2
+    cases i with
+    | zero => exact hab
+    | succ i => exact ih i (by simpa using h1) (by simpa using h2)
+
 variable {P E V : Type} [Inhabited V]
 
 /-- the element values `load_model` must reproduce for an `MX` attribute: one per scalar
@@ -53,15 +74,15 @@ theorem colSlice_rowsOf (nA : Nat) (embed : P → List V) (v : Var P E V) (e : E
 theorem loadVars_matches (nA : Nat) (embed : P → List V) (nanEnv : E) (metaFn : E → List (List V)) :
     ∀ (vars : List (Var P E V)) (row : Nat) (pre : E → List (List V)),
       (∀ e, (pre e).length = row) → (∀ e, metaFn e = pre e ++ metaOf nA embed vars e) →
-      List.Forall₂ (Matches nA nanEnv) vars
+      All2 (Matches nA nanEnv) vars
         (loadVars nanEnv metaFn row (vars.map toDict) (vars.map (fun v j => classify (v.attrs j)))) := by
   intro vars
   induction vars with
-  | nil => intro row pre _ _; exact List.Forall₂.nil
+  | nil => intro row pre _ _; exact All2.nil
   | cons v rest ih =>
     intro row pre hpre hmeta
     simp only [List.map_cons, loadVars]
-    refine List.Forall₂.cons ?_ ?_
+    refine All2.cons ?_ ?_
     · refine ⟨rfl, rfl, rfl, rfl, rfl, ?_⟩
       intro j hj
       have hslice : ∀ e, colSlice (metaFn e) row (toDict v).numel j
@@ -75,16 +96,16 @@ theorem loadVars_matches (nA : Nat) (embed : P → List V) (nanEnv : E) (metaFn 
       | mx dep f =>
         cases dep with
         | true =>
-          simp only [AttrOk, classify]
+          simp only [AttrOk, classify, hattr]
           refine ⟨_, rfl, ?_⟩
           intro e _
           rw [hslice e]
           simp [broadcast, elemOf, hattr]
         | false =>
-          simp only [AttrOk, classify]
+          simp only [AttrOk, classify, hattr]
           refine ⟨_, rfl, ?_⟩
           intro e hc
-          rw [hslice nanEnv, hc rfl]
+          rw [hslice nanEnv, hc trivial]
           simp [broadcast, elemOf, hattr]
     · apply ih (row + (toDict v).numel) (fun e => pre e ++ rowsOf nA embed v e)
       · intro e
@@ -114,5 +135,87 @@ theorem loadVars_row0 (nanEnv : E) (metaFn : E → List (List V)) :
       apply List.map_congr_left
       intro i _
       simp [Function.comp, Nat.add_assoc]
+
+/-! ### delay durations -/
+
+/-- `f` reads only the symbols in `S`. -/
+def DependsOnly (f : (Nat → V) → V) (S : List Nat) : Prop :=
+  ∀ env env' : Nat → V, (∀ k, k ∈ S → env k = env' k) → f env = f env'
+
+/-- what `maskSets` promises for one duration: nothing kept only if nothing is needed,
+    otherwise everything needed is kept -/
+def MaskOk (dd : List Nat) : Option (List Nat) → Prop
+  | none => dd = []
+  | some T => ∀ k, k ∈ dd → k ∈ T
+
+theorem maskSets_sound (union : List Nat) :
+    ∀ (dds : List (List Nat)) (cur : Nat), (∀ dd, dd ∈ dds → ∀ k, k ∈ dd → k ∈ union) →
+      All2 MaskOk dds (maskSets union cur dds) := by
+  intro dds
+  induction dds with
+  | nil => intro _ _; exact All2.nil
+  | cons dd rest ih =>
+    intro cur h
+    have hrest : ∀ d, d ∈ rest → ∀ k, k ∈ d → k ∈ union := fun d hd => h d (List.mem_cons_of_mem _ hd)
+    unfold maskSets
+    split
+    · rename_i he
+      exact All2.cons (by simpa [MaskOk] using he) (ih cur hrest)
+    · split
+      · exact All2.cons (by intro k hk; exact hk) (ih _ hrest)
+      · exact All2.cons (h dd (List.mem_cons_self ..)) (ih cur hrest)
+
+theorem mem_unionOf (dds : List (List Nat)) (dd : List Nat) (hd : dd ∈ dds) (k : Nat) (hk : k ∈ dd) :
+    k ∈ unionOf dds := by
+  simp only [unionOf, List.mem_eraseDups, List.mem_flatMap, id]
+  exact ⟨dd, hd, hk⟩
+
+/-- the function `loadDurations` maps over the zipped (raw duration, mask) pairs -/
+def applyMask (nan : V) (x : ((Nat → V) → V) × Option (List Nat)) : (Nat → V) → V :=
+  match x.2 with
+  | none => fun _ => x.1 (fun _ => nan)
+  | some keep => fun env => x.1 (maskEnv nan keep env)
+
+omit [Inhabited V] in
+theorem loadDurations_eq (nan : V) (raw : List ((Nat → V) → V)) (dds : List (List Nat)) :
+    loadDurations nan raw dds
+      = (raw.zip (maskSets (unionOf dds) (unionOf dds).length dds)).map (applyMask nan) := by
+  unfold loadDurations
+  apply List.map_congr_left
+  intro x _
+  cases x with
+  | mk f t => cases t <;> rfl
+
+omit [Inhabited V] in
+theorem applyMask_ok (nan : V) (f : (Nat → V) → V) (dd : List Nat) (t : Option (List Nat))
+    (hdep : DependsOnly f dd) (hok : MaskOk dd t) (env : Nat → V) : applyMask nan (f, t) env = f env := by
+  cases t with
+  | none =>
+    simp only [MaskOk] at hok
+    simp only [applyMask]
+    apply hdep
+    intro k hk
+    rw [hok] at hk
+    cases hk
+  | some T =>
+    simp only [MaskOk] at hok
+    simp only [applyMask]
+    apply hdep
+    intro k hk
+    simp [maskEnv, hok k hk]
+
+omit [Inhabited V] in
+theorem zipMask_ok (nan : V) : ∀ (raw : List ((Nat → V) → V)) (dds : List (List Nat)) (ms : List (Option (List Nat))),
+    All2 DependsOnly raw dds → All2 MaskOk dds ms →
+      All2 (fun f g => ∀ env, g env = f env) raw ((raw.zip ms).map (applyMask nan)) := by
+  intro raw dds ms h1
+  induction h1 generalizing ms with
+  | nil => intro h2; cases h2; exact All2.nil
+  | cons hd _ ih =>
+    intro h2
+    cases h2 with
+    | cons hm hrest =>
+      simp only [List.zip_cons_cons, List.map_cons]
+      exact All2.cons (fun env => applyMask_ok nan _ _ _ hd hm env) (ih _ hrest)
 
 end PymocaVerif.CacheMeta
